@@ -13,6 +13,7 @@ package main
 
 import (
 	"bytes"
+	"context"
 	"encoding/hex"
 	"encoding/json"
 	"flag"
@@ -203,6 +204,7 @@ func project(db ethdb.Database, kv ethdb.KeyValueStore, c *chain) projection {
 type gater struct {
 	mu       sync.Mutex
 	inFreeze bool
+	closing  bool // the database is being closed: nothing is parked any more
 	cond     *sync.Cond
 	gateCh   chan int      // gate reached (1..5)
 	release  chan struct{} // driver lets it continue
@@ -233,15 +235,30 @@ func (g *gater) hook(ev string, kv ...any) {
 		}
 	case ev == "freeze-gate-0":
 		g.mu.Lock()
-		for !g.inFreeze {
+		for !g.inFreeze && !g.closing {
 			g.cond.Wait()
 		}
 		g.mu.Unlock()
 	case strings.HasPrefix(ev, "freeze-gate-"):
+		g.mu.Lock()
+		closing := g.closing
+		g.mu.Unlock()
+		if closing {
+			return
+		}
 		k := int(ev[len(ev)-1] - '0')
 		g.gateCh <- k
 		<-g.release
 	}
+}
+
+// shutdown lets a timer-started cycle that is parked at gate 0 go on, so that Close (which waits for the
+// freezer goroutine) can finish.
+func (g *gater) shutdown() {
+	g.mu.Lock()
+	g.closing = true
+	g.cond.Broadcast()
+	g.mu.Unlock()
 }
 
 func (g *gater) setFreeze(v bool) {
@@ -348,6 +365,7 @@ func runChild(in, out string) {
 	}
 	res.After = project(db, kv, c)
 	write()
+	g.shutdown()
 	db.Close()
 }
 
@@ -425,10 +443,15 @@ func (rn *runner) image(kv ethdb.KeyValueStore, anc string, g *gater, c *chain, 
 	out := filepath.Join(dir, "out.json")
 	b, _ := json.Marshal(childIn{KV: dumpKV(kv), Anc: filepath.Join(dir, "anc"), Tree: c.tree, Salt: salt, Final: final})
 	os.WriteFile(in, b, 0o644)
-	cmd := exec.Command(rn.self, "-mode", "child", "-in", in, "-res", out)
+	ctx, cancel := context.WithTimeout(context.Background(), 30*time.Minute)
+	defer cancel()
+	cmd := exec.CommandContext(ctx, rn.self, "-mode", "child", "-in", in, "-res", out)
 	var stderr bytes.Buffer
 	cmd.Stderr, cmd.Stdout = &stderr, &stderr
 	runErr := cmd.Run()
+	if ctx.Err() != nil {
+		tl.Fatal("child process did not finish within 30 minutes")
+	}
 	var co childOut
 	if rb, err := os.ReadFile(out); err == nil {
 		json.Unmarshal(rb, &co)
@@ -506,6 +529,7 @@ func (rn *runner) history(h int, tree []node) {
 		rn.tr.Emit(tl.M{"op": "freezeret", "proj": project(db, kv, c), "gates": append([]int{}, gates...)})
 		shape += fmt.Sprintf("-f%d:%d", fin, len(gates))
 	}
+	g.shutdown()
 	db.Close()
 	rn.sum.Traces++
 	rn.sum.Extra["shape-"+shape] = 1
